@@ -62,7 +62,7 @@ def generate(rng, tier, idx):
         # large file through the real fs.createReadStream: multi-byte characters straddle 64 KiB offsets
         unit = c12.gen_text(rng, rng.choice([5, 9, 33]))
         if not any(ord(ch) > 127 for ch in unit):
-            unit += rng.choice(['é', '€', '\U0001F600'])
+            unit += rng.choice(['é', '€', '\U0001F600', '\ufffd'])
         target = rng.choice([65536 + 10, 2 * 65536 + 7, 3 * 65536])
         blen = len(unit.encode('utf-8'))
         text = unit * (target // blen + 1)
@@ -83,7 +83,7 @@ def generate(rng, tier, idx):
         sc['pace'] = {'mode': 'query', 'gaps': [], 'header_first': False, 'query': rng.choice(['select a1, b1 left join B on a1 == b1', 'select * join B on a1 == b1', 'select a1 left join B on NR == bNR'])}
         jt = c12.gen_text(rng, rng.choice([2, 4, 6, 9]))
         if not any(ord(ch) > 127 for ch in jt) and rng.random() < 0.7:
-            jt += rng.choice(['é', '€', '\U0001F600'])
+            jt += rng.choice(['é', '€', '\U0001F600', '\ufffd'])
         sc['join_text'] = jt
         jn = len(jt.encode('utf-8'))
         sc['join_partitions'] = sorted(set(tuple(c12.random_composition(rng, jn)) for _ in range(5)) | {tuple([1] * jn), (jn,)})
